@@ -120,7 +120,7 @@ PROPS = {
         level_note=LN + "Known finding D3 is excluded by an explicit hypothesis in the add_at theorem and by one predicate in the generator; its witness is replayed on every run.",
     ),
     "C06": dict(
-        streams=[S(c, focus="all", n_quick=60, small=False, valgrind=True) for c in ALL],
+        streams=[S(c, focus="all", n_quick=60, small=False, valgrind=True, coverage=True) for c in ALL],
         relevant=rel_c06,
         level_text=T("for the buffer containers no reachable state makes a checked access fault (every slot index below the allocated slot count, no modulo by zero); for every container the ledger theorems show destroy releases every owned block exactly once.") + " Partial by nature: use-after-free, uninitialised reads and pointer-level double frees in linked structures are runtime behaviour the models cannot exhibit; they are observed on sampled histories under ASan/UBSan (and valgrind in the thorough tier) with two allocation ledgers.",
         level_note=LN + "Memory errors at the C level are observed, not proved.",
@@ -132,7 +132,7 @@ PROPS = {
         level_note=LN + "Programs respect the documented contract (mutators only after a successful next, one structural change per yield).",
     ),
     "C08": dict(
-        streams=[S(c, focus="fault", n_quick=40, small=False, faults=True) for c in ["array", "array_sized", "pqueue", "deque", "list", "slist", "hashtable", "hashset", "treetable", "treeset", "tsttable", "queue", "stack", "rbuf", "dpool"]],
+        streams=[S(c, focus="fault", n_quick=40, small=False, faults=True, coverage=True) for c in ["array", "array_sized", "pqueue", "deque", "list", "slist", "hashtable", "hashset", "treetable", "treeset", "tsttable", "queue", "stack", "rbuf", "dpool"]],
         relevant=rel_c08,
         level_text=T("for every refusal schedule a refused allocation yields the allocation-error status, leaves the abstraction unchanged and the ledger consistent (atomicity conjunct of each step theorem).") + " The run enumerates, for every operation of sampled histories, every allocator call of that operation as the one that is refused.",
         level_note=LN,
@@ -168,7 +168,7 @@ PROPS = {
         level_note=LN,
     ),
     "C14": dict(
-        streams=[S(c, focus="all", n_quick=50, small=False, alloc_modes=True) for c in SEQ + MAPS + ["pqueue", "rbuf"]],
+        streams=[S(c, focus="all", n_quick=50, small=False, alloc_modes=True, coverage=True) for c in SEQ + MAPS + ["pqueue", "rbuf"]],
         relevant=rel_c14,
         level_text=T("every allocation event of every model operation goes through the configured triple (the libc counter of the ledger is invariant).") + " Because this is a property of which function the C text calls, the weight is on the tie: every operation runs with two ledgers armed (configured / libc via linker --wrap) and every history is re-run on a static and on a dynamic pool of the library itself.",
         level_note=LN,
